@@ -49,6 +49,7 @@ def items(rep):
     return [(UMatrixLoop(), [("ratio_moved_to_the_event_term", verify.replace_expr("event_select / self.prob_event[e] + -self.ratio * group_event_select / self.prob_group_event[e, g]",
                                                                                   "-self.ratio * event_select / self.prob_event[e] + group_event_select / self.prob_group_event[e, g]")),
                              ("group_term_normalised_by_event_probability", verify.replace_expr("self.prob_group_event[e, g]", "self.prob_event[e]", 1))]),
+            (Gamma(column_output=True), []),
             (Gamma(), [("sign_dropped", verify.replace_expr("-self.U.T.dot(pred) / self.total_samples", "self.U.T.dot(pred) / self.total_samples")),
                        ("base_utility_from_the_wrong_column", verify.replace_expr("self.utilities[:, 0]", "self.utilities[:, 1]"))]),
             (Bound(), []),
